@@ -346,19 +346,12 @@ func runC05(c *Ctx) {
 				call, ok := x.Tuple.(*ssa.Call)
 				return ok && x.Index == 0 && callTo(m)(call)
 			case *ssa.Phi:
-				// (nil is what the error exits of a written-out fetch helper
-				// leave in its result variable: no slice of another origin)
-				some := false
 				for _, e := range x.Edges {
-					if ir.IsNil(e) {
-						continue
-					}
 					if !whole(e, m, d+1) {
 						return false
 					}
-					some = true
 				}
-				return some
+				return len(x.Edges) > 0
 			case *ssa.UnOp:
 				// a local cell: every store into it
 				if a, ok := x.X.(*ssa.Alloc); ok && x.Op == token.MUL {
@@ -382,7 +375,10 @@ func runC05(c *Ctx) {
 		n := 0
 		for _, st := range find(fn, storeToField(fhF)) {
 			n++
-			if !whole(st.(*ssa.Store).Val, fhA, 0) {
+			// (a result variable of a written-out fetch helper holds, where
+			// it is used, what the edges that can get there put into it: the
+			// nil placeholders of its error exits cannot)
+			if !whole(st.(*ssa.Store).Val, fhA, 0) && !whole(ir.ValueAt(st.(*ssa.Store).Val, st.Block()), fhA, 0) {
 				bad = append(bad, "the filterHeaders stored in the query at "+c.at(st)+" are not the slice FetchHeaderAncestors returned")
 			}
 		}
@@ -410,7 +406,7 @@ func runC05(c *Ctx) {
 				return
 			}
 			idx++
-			if whole(src, bhA, 0) {
+			if whole(src, bhA, 0) || whole(ir.ValueAt(src, in.Block()), bhA, 0) {
 				return
 			}
 			// a window blockHeaders[k:] is fine when the position stored is
